@@ -3,6 +3,7 @@ package main
 import (
 	"fmt"
 	"os"
+	"runtime/pprof"
 	"sort"
 	"strings"
 	"time"
@@ -18,8 +19,17 @@ func main() {
 	if r := os.Getenv("VERIF_REPO"); r != "" {
 		repoRoot = r
 	}
+	if pf := os.Getenv("VERIF_PROF"); pf != "" {
+		f, _ := os.Create(pf)
+		pprof.StartCPUProfile(f)
+		defer pprof.StopCPUProfile()
+	}
 	switch os.Args[1] {
 	case "func":
+		rc := cmdFunc(os.Args[2:])
+		pprof.StopCPUProfile()
+		os.Exit(rc)
+	case "func-old":
 		os.Exit(cmdFunc(os.Args[2:]))
 	case "prop":
 		os.Exit(cmdProp(os.Args[2:]))
@@ -113,7 +123,7 @@ func cmdFunc(args []string) int {
 			if r.Worst != nil {
 				fmt.Printf("       -> %s [%s] %s: %s\n", r.Worst.Sub, r.Worst.Res.Solver, r.Worst.Res.Result, r.Worst.Info)
 				if len(r.Worst.Res.Model) > 0 {
-					fmt.Printf("       model: %v\n", r.Worst.Res.Model)
+					fmt.Printf("       model: %s\n", truncate(fmt.Sprint(r.Worst.Res.Model), 400))
 				}
 			}
 		}
